@@ -71,6 +71,9 @@ def scn_retry(ctx):
                 raise RuntimeError("policy is broken")
             return ExceptionRetryPolicy.sleep_time(self, attempt, future)
 
+    if p.get("falsy_policy"):
+        # a policy object that happens to be falsy (a rule set with len() == 0 that still decides)
+        Pol.__len__ = lambda self: 0
     pol = Pol(max_attempts=maxatt, sleep=sleep, exponent=expo, max_sleep=maxs,
               exception_base={"list": [Retryable], "class": Retryable, "tuple2": (KeyError, Retryable), "list2": [Retryable, KeyError]}[
                   p.get("base_form", "list" if p.get("base_list", True) else "class")])
@@ -253,6 +256,7 @@ def plan(tier, seed):
         items.append(dict(scenario="retry", params=dict(nsub=1, max_attempts=3, base="sync", policy="raises", raise_in="sleep_time", raise_at=1), bounds=dict(P=0)))
         items.append(dict(scenario="retry", params=dict(nsub=1, max_attempts=1, base="pool"), bounds=dict(P=1)))
         items.append(dict(scenario="retry", params=dict(nsub=1, max_attempts=2, base="sync", huge_sleep=True), bounds=dict(P=0)))
+        items.append(dict(scenario="retry", params=dict(nsub=1, max_attempts=2, base="sync", falsy_policy=True), bounds=dict(P=0)))
         items.append(dict(scenario="retry", params=dict(nsub=1, max_attempts=4, base="sync", base_form="tuple2"), bounds=dict(P=0)))
         items.append(dict(scenario="retry", params=dict(nsub=1, max_attempts=2, base="sync", base_form="list2"), bounds=dict(P=0)))
     else:
